@@ -6,7 +6,6 @@ sys.path[:0] = [os.path.join(HERE, "vlib"), os.path.join(HERE, "props"), os.path
 
 NOT_APPLICABLE = {
     'C06': 'deadlock freedom / refinement of a monitor + condvar + bounded-channel protocol across real threads: Kani has no threads and its compiler crashes on crossbeam; mirsym has no semantics for Condvar / thread wake-ups, and a hand-written protocol model would be a different technique. The simple trackers the batch trackers are to refine are decided one call at a time (C01-C04, C12); the store under command-granularity schedules under C05 / C10. See DESIGN.md C06.',
-    'C18': 'the observable is CPython calling pyo3-generated FFI glue; neither engine can execute an interpreter boundary, and checking wrapper bodies in Rust would not establish what the property states. See DESIGN.md C18.',
 }
 PENDING = 'check under construction (not yet registered)'
 
@@ -30,7 +29,7 @@ def main():
         if getattr(mod, 'KANI', []): engines.append('kani')
         if getattr(mod, 'MIR', []): engines.append('mirsym')
         nq = sum(1 for h in getattr(mod, 'KANI', []) if h.tier == 'quick') + sum(1 for q in getattr(mod, 'MIR', []) if q.tier == 'quick')
-        nt = len(getattr(mod, 'KANI', [])) + len(getattr(mod, 'MIR', []))
+        nt = sum(1 for h in getattr(mod, 'KANI', []) if h.tier != 'deep') + sum(1 for q in getattr(mod, 'MIR', []) if q.tier != 'deep')
         checks.append({
             'property_id': pid,
             'quick_cmd': './check %s --tier quick' % pid,
